@@ -79,13 +79,15 @@ def run(P: Program, R: Report, tier: str) -> None:
             loose = [x for x in group if x.s == node and not x.info["reconnected"]]
             need = len(loose) if has_parent else max(len(loose) - 1, 0)
             updated = [x for x in loose if find(x.t, x.relabels_before + x.relabels_after)[0] is not None]
-            lbl = f"removal of {strip(node)[:30]}: {'parent side + ' if has_parent else ''}{len(loose)} detached child subtree(s)"
+            shape = f"{'parent side + ' if has_parent else ''}{len(loose)} detached child subtree(s)"
+            lbl = f"removal of {strip(node)[:30]}"
             if need == 0:
-                R.ok("R05.1", f, ev.where(), f"{lbl}: at most one component remains", via="path-shape")
+                R.ok("R05.1", f, ev.where(), f"{lbl}: {shape}: at most one component remains", via="path-shape")
             else:
+                # the key does not depend on how many children the path happens to have (loop unrolling)
                 R.check(len(updated) >= need, "R05.1", f, loose[0].ev.where(),
-                        f"{lbl}: every additional component gets a lineage of its own",
-                        f"{need} detached subtree(s) need a fresh lineage id, {len(updated)} get one: several components share one id",
+                        f"{lbl}: every additional component left behind gets a lineage of its own",
+                        f"{shape}: {need} detached subtree(s) need a fresh lineage id, {len(updated)} get one: several components share one id",
                         via="path-shape", path=path)
         elif st.kind == "splice-in":
             an = st.info["addnode"]
